@@ -713,11 +713,12 @@ def _update_state(cell_indices, cell_idx_to_neigh_idx, curr_state, next_state, c
 
     neigh_row_indices, neigh_col_indices = cell_idx_to_neigh_idx[cell_indices.tobytes()]
     state = curr_state[np.ix_(neigh_row_indices, neigh_col_indices)]
+    r = von_neumann_mask.shape[0] // 2
 
     if state in cache:
         # update next_state with next vals from cache
-        state_row_indices = neigh_row_indices[1:-1]
-        state_col_indices = neigh_col_indices[1:-1]
+        state_row_indices = neigh_row_indices[r:len(neigh_row_indices) - r]
+        state_col_indices = neigh_col_indices[r:len(neigh_col_indices) - r]
         next_state[np.ix_(state_row_indices, state_col_indices)] = cache[state]
     else:
         if cell_indices.shape[0] > 1 or cell_indices.shape[1] > 1:
@@ -736,8 +737,8 @@ def _update_state(cell_indices, cell_idx_to_neigh_idx, curr_state, next_state, c
             val = apply_rule(neighbourhood, c, t)
             next_state[c[0]][c[1]] = val
         # get the result from the next_state for the left_indices and place in cache
-        state_row_indices = neigh_row_indices[1:-1]
-        state_col_indices = neigh_col_indices[1:-1]
+        state_row_indices = neigh_row_indices[r:len(neigh_row_indices) - r]
+        state_col_indices = neigh_col_indices[r:len(neigh_col_indices) - r]
         vals_to_cache = next_state[np.ix_(state_row_indices, state_col_indices)]
         cache[state] = vals_to_cache
 
